@@ -17,7 +17,7 @@ levels = {
  "C05": (MC, "reset --mixed/--hard index = independent flattening of the target commit's trees; cat-file -p of every new tree = its decoded children; over name families with spaces, suffix siblings, punctuation, non-ASCII, every name length 1..66 and around 128/255 (tree lines of exactly 32k bytes, trees and index above 4096 bytes) and the empty snapshot", "6 C05"),
  "C06": (MC, "index canonical form as preserved invariant; ls-files = independent decoding; tracked path / tracked directory selection clauses on add, rm, restore", "6 C06"),
  "C07": (MC, "status 'Changes to be committed' = Diff(HEAD snapshot, staging area) computed by TLC from independently decoded trees, in every state of every execution; clean after commit; nothing-to-commit refused; any staged difference commits", "6 C07"),
- "C08": (MC, "reset target = the entry `reflog` shows at position n in the pre-state; per-mode clauses on branch, index, working tree; refusal of malformed/out-of-range positions; model MC_Refs/MC_Stage enumerates every position and mode in every reachable history inside the bound", "6 C08"),
+ "C08": (MC, "reset target = the entry `reflog` shows at position n in the pre-state; per-mode clauses on branch, index (the target snapshot, in canonical order, read back by ls-files), working tree; refusal of malformed/out-of-range positions; model MC_Refs/MC_Stage enumerates every position and mode in every reachable history inside the bound", "6 C08"),
  "C09": (MC, "restore / restore --staged exactness clauses on every real step (selected paths get staged/HEAD content, nothing else changes), arguments: file, existing directory, deleted file, deleted directory, unknown, repeated, a directory and one of its members, other spellings of clean paths (./f, d/./g, d//g)", "6 C09"),
  "C10": (MC, "branch/HEAD state machine: MC_Refs explores every interleaving of create/delete/rename/switch/switch -c/update-ref/commit/reset inside the bound, TLC checks the C10 clauses on the model and on the replay of every edge on the real binary; branch --list and rev-parse compared with the stored state in every state; branch/switch/update-ref command lines from the CLI grammar (surplus and combined arguments): whatever is refused changes nothing (C10_RefusedNothing)", "6 C10"),
  "C11": (MC, "reflog view before/after every command: append-only shift, newest entry = HEAD commit with the right kind after commit/switch/reset, readable after rename/delete and for every message class and zone offset", "6 C11"),
